@@ -125,7 +125,8 @@ class _UnionNormType(_BasicNormType):
     def _make_orderable(self, obj: object) -> str:
         if isinstance(obj, BaseNormType):
             return f"{obj.origin} {[self._make_orderable(arg) for arg in obj.args]}"
-        return str(obj)
+        # repr with the type: str() gives the same key for 1 and "1" (and for 0 and "0")
+        return f"{type(obj)}{obj!r}"
 
     def _order_args(self, args: VarTuple[BaseNormType]) -> VarTuple[BaseNormType]:
         args_list = list(args)
